@@ -8,6 +8,10 @@ Level::Level()
 
 MFUS_CLASS_DECLARATION(Listener, Level, NULL)
 {
+    // owned by the engine, never deleted by a script
+    { &EV_Delete,                        NULL },
+    { &EV_Remove,                        NULL },
+    { &EV_ScriptRemove,                    NULL },
     { NULL, NULL }
 };
 
